@@ -105,13 +105,6 @@ def _bs_then(us, nums):
     return any(is_escaped_bs(a) and b[0] == 'hex' and b[1] in nums for a, b in zip(us, us[1:]))
 
 
-def region_clean_after_unescape(body):
-    """source route of C03-string-backslash-sequence: a STRING token in which an escaped backslash (`\\\\` or U+005C
-    written in hex) is followed (line continuations aside) by a line break written as a hex escape — cleanstring,
-    which runs after unicodesub, then takes the second backslash and the decoded line break for a continuation"""
-    return _bs_then(units(body), (0xA, 0xD, 0xC))
-
-
 def region_escaped_dquote(body, quote):
     """known finding C03-escaped-dquote: the stored value gets a double quote with a backslash before it:
     `\\"` inside a single-quoted string or an unquoted url(); or, in a double-quoted string, an escaped backslash
@@ -143,8 +136,6 @@ def _scan(v, string_mode):
         if d == '\\':
             if i + 2 == n:
                 return 'trail'
-            if string_mode and v[i + 2] in NL:
-                return 'bsnl'
             i += 2
         elif d in HEX:
             j = i + 1
@@ -166,6 +157,11 @@ def str_class(v):
     return _scan(v, True)
 
 
+def is_ctrl(c):
+    o = ord(c)
+    return o <= 8 or 14 <= o <= 31 or o == 127
+
+
 def is_space(c):
     return c.isspace()
 
@@ -174,7 +170,7 @@ FORBIDDEN = set('()\';,"')
 
 
 def uri_quoted(v):
-    return any(c in FORBIDDEN or c.isspace() for c in v)
+    return any(c in FORBIDDEN or c.isspace() or is_ctrl(c) for c in v)
 
 
 def is_url_char(c):
@@ -186,9 +182,6 @@ def uri_class(v):
     """first reason why helper.uri(v) does not read back as v; None = safe"""
     if uri_quoted(v):
         return _scan(v, False)
-    for k, c in enumerate(v):
-        if not is_url_char(c) and not (k > 0 and v[k - 1] == '\\'):
-            return 'ctrl'
     # unquoted: only decodable hex escapes are changed on the way back
     i, n = 0, len(v)
     while i < n:
